@@ -694,7 +694,7 @@ Proof.
         apply gcinv_put; auto.
   - (* RAddParts *)
     destruct (get s i) as [c|] eqn:Hg; [|discriminate]. use_client G Hg Hn Ha Ci.
-    destruct (slot_is c KParts SPicked && list_eqb ps (pend_parts c) && negb (is_niln ps)); [|discriminate].
+    destruct (slot_is c KParts SPicked && list_eqb ps (firstn (length ps) (pend_parts c)) && negb (is_niln ps)); [|discriminate].
     destruct v.
     + destruct (Nat.eqb (cep c) (eep (genv s)) && not_prep (genv s)); [|discriminate]. inv_some.
       apply gcinv_put_env. apply gcinv_put; auto. eapply cinv_only_other; [exact Ci | try reflexivity; auto ..].
